@@ -1,4 +1,4 @@
-(* modelrun: generic driver around the extracted model (model.ml).
+(* modelrun_Cnn: generic driver around the extracted model of one property (model.ml).
    usage: modelrun PROP file.sx            -> prints "<index> <code>" for every case with code <> 0, then "DONE <n>"
           modelrun PROP file.sx --explain k -> prints the model's explanation (an s-expression) of case k
    Wire format: one case per line; s-expressions over decimal integers. Trusted: this parser/printer. *)
@@ -59,9 +59,8 @@ let rec print_sx (b : Buffer.t) (x : Model.sx) : unit =
     Buffer.add_char b ')'
 
 let () =
-  let prop = Sys.argv.(1) and file = Sys.argv.(2) in
-  let (check, explain) =
-    try List.assoc prop Table.table with Not_found -> (prerr_endline ("modelrun: unknown property " ^ prop); exit 2) in
+  let file = Sys.argv.(2) in
+  let (check, explain) = (Model.the_check, Model.the_explain) in
   let ic = open_in file in
   let explain_k = if Array.length Sys.argv > 4 && Sys.argv.(3) = "--explain" then int_of_string Sys.argv.(4) else -1 in
   let k = ref 0 in
